@@ -66,11 +66,8 @@ func (im0 *im0data) Get(addr uint16) uint8 {
 }
 
 func (im0 *im0data) Set(addr uint16, value uint8) {
-	if im0.contains(addr) {
-		// invalid opepration, nothing to do.
-		return
-	}
-	// delegate to base Memory for out of range.
+	// only reads are overlaid: whatever the instruction writes (a pushed
+	// return address, for example) goes to base Memory.
 	im0.base.Set(addr, value)
 }
 
